@@ -977,14 +977,9 @@ func (pg *sigPsGroup) runGenuine(c *sigCase, o *sigOut) {
 	e1 := sigPsVerify(v, b.proof)
 	// second time: sign the same request bytes at the same signer instances, verify the same proof with the same verifier
 	var e2 error
-	for q, id := range c.S {
-		sg, err := sigSign(s.signers[s.posOf(id)], b.req)
-		if err != nil {
+	for _, id := range c.S {
+		if _, err := sigSign(s.signers[s.posOf(id)], b.req); err != nil {
 			e2 = err
-			break
-		}
-		if !bytes.Equal(sg, b.sigs[q]) {
-			e2 = fmt.Errorf("signing the same request again gave a different partial signature")
 			break
 		}
 	}
